@@ -15,6 +15,6 @@ Theorem scaled_scale_invariant_needs_hyp_refuted :
           (pre_values (mkfcase m mo hw cols)).
 Proof.
   exists PAbs, Mean, 1%nat, false, Uniform, None, [mkcol [1] [0] [] [1; 1]], 2.
-  split; [reflexivity|]. intro H. vm_compute in H. inversion H; subst.
-  match goal with E : Qeq _ _ |- _ => vm_compute in E; discriminate E end.
+  split; [reflexivity|]. intros m H. pose proof (eql_nth _ _ 0%nat H) as E.
+  vm_compute in E. discriminate E.
 Qed.
